@@ -18,7 +18,7 @@ SPECS = [
     ('reshape_noop', True), ('ravel_m_T', True), ('reshape_m_T', True),
     ('row_list', True), ('diag_list', True), ('col_list', True), ('row_dict', True), ('diag_dict', True), ('col_dict', True),
     ('diag_nested', True), ('row_single', True), ('diag_single', True), ('col_single', True), ('diag_treeblock', True),
-    ('sum_pq', True), ('comp_pq', True), ('comp_sum_diag', True), ('neg_p', True), ('comp_two_scalars', True), ('comp_scalar_rect', True),
+    ('sum_pq', True), ('comp_pq', True), ('comp_sum_diag', True), ('neg_p', True), ('comp_two_scalars', True), ('comp_scalar_rect', True), ('comp_py_scalars', True), ('comp_py_scalar_moved', True),
     ('rot_iqu', False), ('rot_qu', False), ('rot_iquv_scalar', False), ('rot_iqu_T', False), ('rot_i', True),
     ('hwp_iqu', True), ('hwp_iquv', True), ('pol_iqu', True), ('pol_qu', True), ('pol_i', True), ('pol_iqu_T', True),
     ('toep_dense', True), ('toep_direct', True), ('toep_fft', False), ('toep_os', False), ('toep_batched', False),
@@ -178,6 +178,10 @@ def _build(name, dt):
         return -P()
     if name == 'comp_two_scalars':   # reduce() has to merge two scalar factors (HomothetyRule rebuilds the factor)
         return (HomothetyOperator(arr(2.0), a) @ Dg()) @ (HomothetyOperator(arr(-3.0), a) @ Q())
+    if name == 'comp_py_scalars':   # Python (weakly typed) scalar factors: the merged factor must stay weakly typed
+        return (2.0 * P()) @ (3.0 * Q())
+    if name == 'comp_py_scalar_moved':   # reduce() relocates the Python scalar to the smaller side
+        return G() @ (2.0 * P())
     if name == 'comp_scalar_rect':   # scalar on the larger side: reduce() moves it to the smaller one
         return HomothetyOperator(arr(0.5), b) @ G() @ HomothetyOperator(arr(4.0), a)
     if name == 'rot_iqu':
